@@ -50,6 +50,9 @@ type C06Case struct {
 	Instance string   `json:"instance"`
 	DBIs     []C06DBI `json:"dbis"`
 	Private  bool     `json:"private,omitempty"` // also create _sync... DBIs that must not be dumped
+	// Sweeper: the tomb sweeper is configured (retention in days); a snapshot still carries every
+	// marker that exists in the LMDB, however old
+	Sweeper float32 `json:"sweeper_retention_days,omitempty"`
 	// Second round: the application deletes / changes some entries, then a second SendOnce
 	DelIdx []int `json:"del_idx,omitempty"`
 }
@@ -171,6 +174,9 @@ func checkC06(c C06Case, o *vcore.Obs) error {
 	defer env.Close()
 	b := fault.NewBucket()
 	conf := BaseConfig(c.Instance)
+	if c.Sweeper > 0 {
+		conf.Sweeper = config.Sweeper{Enabled: true, RetentionDays: c.Sweeper, Interval: time.Hour, FirstInterval: time.Hour, LockDuration: time.Millisecond, ReleaseDuration: time.Millisecond}
+	}
 	lc := config.LMDB{SchemaTracksChanges: c.Native, DupSortHack: !c.Native}
 	s, err := syncer.New(DBName, env.Env, b.Handle("x"), conf, lc, syncer.Options{})
 	if err != nil {
@@ -299,6 +305,7 @@ func checkC06(c C06Case, o *vcore.Obs) error {
 	o.ClassIf(c.Native, "native")
 	o.ClassIf(!c.Native, "shadow")
 	o.ClassIf(c.Private, "private-dbis-present")
+	o.ClassIf(c.Sweeper > 0, "sweeper-configured")
 	o.ClassIf(len(c.DBIs) == 0, "no-dbis")
 	return nil
 }
@@ -380,13 +387,16 @@ func genC06(t *rapid.T) C06Case {
 	}
 	// dupsort contents must be mappable by the hack; keep them simple (C20 covers refusal)
 	c.Private = rapid.IntRange(0, 2).Draw(t, "private") == 0
+	if rapid.IntRange(0, 2).Draw(t, "sweeper") == 0 {
+		c.Sweeper = rapid.SampledFrom([]float32{0.001, 1, 370}).Draw(t, "retention")
+	}
 	c.DelIdx = rapid.SliceOfN(rapid.IntRange(0, 50), 0, 3).Draw(t, "delidx")
 	return c
 }
 
 func TestC06Image(t *testing.T) {
 	vcore.Run(t, vcore.Config{Property: "C06",
-		Rule: "rapid LMDB contents: 0-6 application DBIs (plain, integer key 4/8, dupsort with the hack in shadow mode), 0-200 entries, keys <=511 B, values empty..3 MiB, native headers with 0-3 extension blocks / unknown flag bits / ts incl. 0 / markers, private _sync* DBIs, arbitrary instance names; SendOnce twice (deletions in between); decoded with the reference codec and compared with an independent dump; wire walk finds only schema fields; name/meta/time/transaction id checked; " +
+		Rule: "rapid LMDB contents: 0-6 application DBIs (plain, integer key 4/8, dupsort with the hack in shadow mode), 0-200 entries, keys <=511 B, values empty..3 MiB, native headers with 0-3 extension blocks / unknown flag bits / ts incl. 0 / markers, private _sync* DBIs, arbitrary instance names, tomb sweeper configured or not (markers older than the retention are still part of the image); SendOnce twice (deletions in between); decoded with the reference codec and compared with an independent dump; wire walk finds only schema fields; name/meta/time/transaction id checked; " +
 			"non-trivial = >=2 DBIs and one of {marker, empty value, extension block, >=16 KiB value, second round with deletions}"},
 		genC06, checkC06)
 }
